@@ -10,11 +10,7 @@ import traceback
 from . import ch
 
 
-class DirectUnit:
-    """A unit that is decided without CrossHair (direct SMT queries, or native validation).
-    run() returns a result dict with at least 'verdict'."""
-    def run(self):
-        raise NotImplementedError
+from .ch import DirectUnit  # noqa: E402  (kept here for backwards references)
 
 
 def _jsonable(x):
